@@ -454,3 +454,61 @@ func TestVerifSweepMarkStress(t *testing.T) {
 	out.Emit(map[string]any{"kind": "summary", "rounds": rounds, "regs": nregs, "used_kept": usedKept, "removed": removedTotal,
 		"removed_although_used": removedUsed, "kept_although_unused": keptUnused})
 }
+
+// ---- duplicate burst without gates: K workers ingest the same detector registration at the same instant.  Whatever happens
+// inside the locked methods, the outcome must be the serial one: one worker treats it as new (one liveness probe, one share with
+// the peer stations, one New announcement), the others as duplicates; every delivery is counted.
+func TestVerifDuplicateBurst(t *testing.T) {
+	out := vOpenOut(t)
+	defer out.Close()
+	rounds := vEnvInt("VERIF_ROUNDS", 200)
+	const K = 8
+	verifhook.SetYield(nil)
+	bad := map[string]int{}
+	for round := 0; round < rounds; round++ {
+		w := vingNewWorld(t, false)
+		verifhook.SetYield(nil)
+		key := fmt.Sprintf("burst-%d", round)
+		regs := make([]*DecoyRegistration, K)
+		for i := range regs {
+			regs[i] = w.mkReg(key, "detector", false)
+		}
+		start := make(chan struct{})
+		var wg sync.WaitGroup
+		for i := range regs {
+			wg.Add(1)
+			go func(r *DecoyRegistration) { defer wg.Done(); <-start; w.rm.ingestRegistration(r) }(regs[i])
+		}
+		close(start)
+		wg.Wait()
+		// the share request is asynchronous: wait for the first, then give a second one time to show up
+		deadline := time.Now().Add(2 * time.Second)
+		for time.Now().Before(deadline) {
+			w.mu.Lock()
+			n := w.shares[key]
+			w.mu.Unlock()
+			if n >= 1 {
+				break
+			}
+			time.Sleep(100 * time.Microsecond)
+		}
+		time.Sleep(3 * time.Millisecond)
+		st := w.project([]string{key}, nil)
+		reg := st["reg"].(map[string]any)[key].(map[string]any)
+		probes := int(atomic.LoadInt32(&w.live.calls))
+		obs := map[string]any{"probes": probes, "shares": st["shares"].(map[string]any)[key], "announced": st["ann"].(map[string]any)[key],
+			"count": reg["count"], "valid": reg["valid"]}
+		want := map[string]any{"probes": 1, "shares": 1, "announced": 1, "count": K, "valid": true}
+		for k, v := range want {
+			if fmt.Sprint(obs[k]) != fmt.Sprint(v) {
+				bad[k]++
+				if bad[k] <= 3 {
+					out.Emit(map[string]any{"kind": "prop", "prop": "SerialOutcome:" + k, "round": round, "observed": obs, "serial": want,
+						"detail": fmt.Sprintf("%d workers ingesting one registration at once: %s = %v, every serial order gives %v", K, k, obs[k], v)})
+				}
+			}
+		}
+		w.close()
+	}
+	out.Emit(map[string]any{"kind": "summary", "rounds": rounds, "workers": K, "bad": bad})
+}
